@@ -1,0 +1,48 @@
+//! Verification hooks. Only compiled with `--features verif`; contains no logic of its own:
+//! re-exports of internal items, and two callback registries (file-system effects, sync points)
+//! that are no-ops unless a harness installs a callback.
+use std::path::Path;
+use std::sync::RwLock;
+
+pub use crate::bitvec;
+pub use crate::disk_store::verif_exports::{BlobWriter, FileBlobWriter, PartitionSegment, VersionedChecksummedBlobWriter};
+pub use crate::disk_store::meta_store::{MetaStore, PartitionMetadata, SubpartitionMetadata};
+pub use crate::disk_store::storage::{verif_partition_filename, verif_sanitize_table_name, Storage};
+pub use crate::disk_store::wal_segment::WalSegment;
+pub use crate::engine;
+pub use crate::ingest;
+pub use crate::mem_store;
+pub use crate::scheduler::inner_locustdb::{verif_is_filesystem_safe, verif_subpartition};
+pub use crate::scheduler::InnerLocustDB;
+pub use crate::stringpack;
+pub use crate::syntax;
+
+type FsCallback = Box<dyn Fn(&str, &Path, &[u8]) + Send + Sync>;
+type SyncCallback = Box<dyn Fn(&str) + Send + Sync>;
+
+lazy_static! {
+    static ref FS_CALLBACK: RwLock<Option<FsCallback>> = RwLock::new(None);
+    static ref SYNC_CALLBACK: RwLock<Option<SyncCallback>> = RwLock::new(None);
+}
+
+pub fn set_fs_callback(cb: Option<FsCallback>) {
+    *FS_CALLBACK.write().unwrap() = cb;
+}
+
+pub fn set_sync_callback(cb: Option<SyncCallback>) {
+    *SYNC_CALLBACK.write().unwrap() = cb;
+}
+
+/// Called by `FileBlobWriter` around each primitive file-system effect.
+pub fn fs_effect(label: &str, path: &Path, data: &[u8]) {
+    if let Some(cb) = FS_CALLBACK.read().unwrap().as_ref() {
+        cb(label, path, data);
+    }
+}
+
+/// Called at named step boundaries of ingestion / flush / compaction / column loading.
+pub fn sync_point(label: &str) {
+    if let Some(cb) = SYNC_CALLBACK.read().unwrap().as_ref() {
+        cb(label);
+    }
+}
